@@ -157,6 +157,13 @@ def value_under(case, form, settings, covers_mode, via='global'):
                 a = sc2.relative_coeff_vector(f.upcast_to_signomial(1), L.alpha).reshape(-1, 1)
                 o = sc2.relative_coeff_vector(f, L.alpha).reshape(-1, 1)
                 prob = cl.Problem(cl.MIN, o.T @ v, [con, a.T @ v == 1])
+        if via == 'override':
+            # handing options to ONE constraint must leave the global defaults as they were
+            import sageopt.coniclifts.constraints.set_membership.sage_cones as sc_
+            want = {k: (not v) for k, v in settings.items() if isinstance(v, bool)}
+            leaked = {k: sc_.SETTINGS[k] for k in want if sc_.SETTINGS[k] != want[k]}
+            if leaked:
+                return 'raised:GlobalDefaultsChanged:per-constraint settings changed the global defaults %s' % sorted(leaked), float('nan')
         return rm.solve_ecos(prob)
     except Exception as e:  # noqa: BLE001
         if isinstance(e, RuntimeError) and 'This SAGE constraint is infeasible' in str(e) and form == 'primal':
